@@ -327,6 +327,7 @@ func runC02(c *Ctx) {
 		"C02.b exit-handler typestate: handler installed on every edge into osc/dcs-passthrough/apc and run-then-cleared on every edge out",
 		"C02.c ST suppression: ESC \\ is suppressed iff the ESC ended a string state; an ESC \\ after BEL/CAN/SUB/timeout is delivered",
 		"C02.d ignore states deliver nothing (part of the table)",
+		"C02.h every ESC arms the Escape timer in every reachable parser state",
 		"C02.e action bodies: collect/param/put/oscPut append the byte to their buffer; clear resets intermediates, params and final; execute emits C0",
 		"C02.f a slice stored into a delivered sequence is replaced by fresh storage before the parser continues (payloads are never altered after delivery)",
 	}
@@ -335,6 +336,7 @@ func runC02(c *Ctx) {
 	c.expect("C02.b", 10)
 	c.expect("C02.c", 15)
 	c.expect("C02.e", 7)
+	c.expect("C02.h", 15)
 
 	pk := c.P.Pkg("ansi")
 	if pk == nil {
@@ -695,6 +697,22 @@ func runC02(c *Ctx) {
 				c.bad("C02.c", key, decls[step].Pos(), "an ESC \\ that does not end a string is swallowed (stale ST-suppression flag in %s)", qk)
 			default:
 				c.ok("C02.c", key, decls[step].Pos(), "suppressed=%v as required", !dispatched)
+			}
+		}
+	}
+	// every ESC arms the Escape timer, whatever the state (C08: a lone ESC followed by silence is reported as Escape)
+	if timerLit != nil {
+		for _, qk := range order {
+			q := seen[qk]
+			t := trans[qk][0x1B]
+			if len(t.problems) > 0 || t.stop {
+				continue
+			}
+			key := fmt.Sprintf("%s%s/ESC arms the Escape timer", q.stateName(), q.flags())
+			if t.next.armed {
+				c.ok("C02.h", key, timerLit.Pos(), "timer armed")
+			} else {
+				c.bad("C02.h", key, timerLit.Pos(), "an ESC received in state %s does not arm the Escape timer: a lone ESC followed by silence is never reported as the Escape key and the next byte is parsed as part of an escape sequence", qk)
 			}
 		}
 	}
